@@ -762,6 +762,8 @@ class Engine:
                 f.regs[inst.id] = int(pred == 'ne')
                 f.idx += 1
                 fz = s_null.top
+                if p.base.startswith(('tok:', 'sum:')):
+                    s_null.ghost[('zero', p.base)] = 1          # an opaque integer token was found equal to 0 on this path
                 self.replace_value(s_null, p, 0)
                 fz.regs[inst.id] = int(pred == 'eq')
                 fz.idx += 1
